@@ -19,7 +19,7 @@ use crate::writer::*;
 use std::fmt::Write as _;
 use std::panic::{catch_unwind, AssertUnwindSafe};
 
-pub const ROUTES: &[&str] = &[R1, R2, R3, R4, R4I, R4J, R4K, R4V, R5, R6];
+pub const ROUTES: &[&str] = DOC_ROUTES_X;
 pub const NAMES: &[&str] = ROUTES;
 const MAX_CALLBACKS: u32 = 160;
 
@@ -383,9 +383,10 @@ pub type RouteRun<'a> = dyn Fn(&'static str, Fault, bool) -> (std::thread::Resul
 pub fn enumerate_faults(text: &str, root: &toml_edit::Item, single: Option<Fault>, sc: &Scenario, verbose: bool, out: &mut RunOut, route_run: &RouteRun<'_>) {
     let mut rendered_seen: std::collections::HashSet<String> = std::collections::HashSet::new();
     for route in ROUTES {
-        if !sc.wants(route) {
+        if !route_on(sc, route) {
             continue;
         }
+        out.stats.inc(&format!("route.{}", route.split(':').next().unwrap_or(route)));
         let run = |fault: Fault, out: &mut RunOut, keep: bool| {
             let (r, cx) = route_run(route, fault, keep);
             out.absorb(&cx);
